@@ -304,13 +304,24 @@ CONFIG = {
                       "little-endian encoding of the input mod L resp. (a·b+c) mod L, that Add/Subtract/Negate/Multiply/MultiplyAdd/SetBytes/"
                       "SetUniformBytes are the corresponding residues, and that isReduced is exactly `< L`. The translated definitions are also "
                       "executed (second driver, scdriver) on every scalar operation of the stream and compared with the Go code's output. "
-                      "PARTIAL for the rest: the field arithmetic (field.Element), the point formulas, the table-driven scalar multiplications "
-                      "and SetBytesWithClamping are not translated; they are covered by the differential stream only (signatures/keys against "
-                      "crypto/ed25519 and the Lean RFC 8032 model, and the bulk random search against math/big). "
+                      "The field arithmetic is proved as well: /verif/extract/cmd/felimbs translates every function of "
+                      "ed25519/internal/edwards25519/field (fe.go, fe_generic.go, the *_noasm.go wrappers) into Generated/FeLimbs.lean on every run, "
+                      "with Go's wrapping uint64 semantics and no side conditions, after checking that the pointer code may be read functionally "
+                      "(alias check; distinct operands at every call site of SqrtRatio/Swap); Proofs/FeCarry, FeMul, FeMisc, FeBytes, FePow prove, for "
+                      "all limbs inside the element invariant, that no 64- or 128-bit operation wraps, that carryPropagate/reduce/Add/Subtract/Negate/"
+                      "Multiply/Square/Mult32/Pow22523/Invert compute the corresponding residues mod 2^255-19 with limbs back inside the invariant, that "
+                      "SetBytes/Bytes are the little-endian codec of the canonical residue (same encoding iff same residue), and Equal/IsNegative/"
+                      "Select/Swap their definitions. The translated field code is executed by scdriver on every field operation of the stream "
+                      "(raw limbs in, raw limbs out, arbitrary 64-bit limbs included) and compared with the Go code. "
+                      "PARTIAL for the rest: Absolute and SqrtRatio are translated and executed but not proved; the point formulas, point decoding, "
+                      "the table-driven scalar multiplications and SetBytesWithClamping are not translated; they are covered by the differential "
+                      "stream only (signatures/keys against crypto/ed25519 and the Lean RFC 8032 model, and the bulk random search against math/big). "
                       "Public keys must be 32 bytes (documented precondition).",
         "trusted_base": COMMON_TB + ["crypto/ed25519 as the reference", "PatVerif/Exec/Ed25519 (validated differentially)"],
-        "assumptions": ["field and point arithmetic refine arithmetic mod p (observed)",
-                        "Model/GoInt.lean reads Go's int64 +, -, *, <<, >>, & (2^j-1), | and byte() correctly where the generated side conditions hold"],
+        "assumptions": ["point arithmetic and scalar multiplication refine the group law (observed)",
+                        "Model/GoInt.lean reads Go's int64 +, -, *, <<, >>, & (2^j-1), | and byte() correctly where the generated side conditions hold",
+                        "Model/GoU64.lean reads Go's uint64 operators, bits.Mul64/Add64 and binary.LittleEndian correctly; felimbs' functional reading "
+                        "of pointer code is right where its alias check passes"],
         "extractors": [{"name": "sclimbs", "out": "ScLimbs.lean"}, {"name": "felimbs", "out": "FeLimbs.lean"}],
         "aux_driver": {"exe": "scdriver", "ops": ["c14.screduce", "c14.scmuladd", "c14.sccanon", "c14.fe", "c14.fel"]},
         "extra_modules": ["PatVerif.Proofs.Sig", "PatVerif.Proofs.DER", "PatVerif.Proofs.ScReduce", "PatVerif.Proofs.ScMulAdd", "PatVerif.Proofs.ScScalar",
@@ -326,7 +337,8 @@ CONFIG = {
                       "bytes of blinded keys and signatures and must equal the fork's.",
         "level_note": "Unblinding inverts blinding on the prime-order subgroup only (hypothesis n•A = 0). The scalar side of blinding — SetBytes of the "
                       "digest's first 32 bytes (any 32 bytes, reduced mod L), Multiply, MultiplyAdd, ModInverse's inputs — is the translated and proved limb "
-                      "code of C14 (Generated/ScLimbs.lean, Proofs/ScScalar); field and point arithmetic are not proved (see C14).",
+                      "code of C14 (Generated/ScLimbs.lean, Proofs/ScScalar); the field arithmetic under the point operations is translated and proved "
+                      "too (Generated/FeLimbs.lean, Proofs/Fe*, see C14); the point formulas and scalar multiplications are not.",
         "trusted_base": COMMON_TB + ["Mathlib", "PatVerif/Exec/Ed25519"],
         "assumptions": ["A lies in the prime-order subgroup for unblind_blind",
                         "Model/GoInt.lean reads Go's int64 operators correctly where the generated side conditions hold"],
